@@ -59,6 +59,28 @@ theorem pointOnSegment_sound (a b c : P2) (h : pointOnSegment a b c = true) : On
     · field_simp
       linarith
 
+/-- one coordinate of completeness: a convex combination lies between the end values -/
+theorem between_of_param (a b t : Rat) (t0 : 0 ≤ t) (t1 : t ≤ 1) :
+    min a b ≤ a + t * (b - a) ∧ a + t * (b - a) ≤ max a b := by
+  rcases le_total a b with hab | hab
+  · rw [min_eq_left hab, max_eq_right hab]
+    have h1 : 0 ≤ t * (b - a) := mul_nonneg t0 (by linarith)
+    have h2 : t * (b - a) ≤ 1 * (b - a) := mul_le_mul_of_nonneg_right t1 (by linarith)
+    constructor <;> linarith
+  · rw [min_eq_right hab, max_eq_left hab]
+    have h1 : 0 ≤ t * (a - b) := mul_nonneg t0 (by linarith)
+    have h2 : t * (a - b) ≤ 1 * (a - b) := mul_le_mul_of_nonneg_right t1 (by linarith)
+    constructor <;> nlinarith
+
+theorem pointOnSegment_complete (a b c : P2) (h : OnSeg a b c) : pointOnSegment a b c = true := by
+  obtain ⟨t, t0, t1, hx, hy⟩ := h
+  obtain ⟨x1, x2⟩ := between_of_param a.x b.x t t0 t1
+  obtain ⟨y1, y2⟩ := between_of_param a.y b.y t t0 t1
+  unfold pointOnSegment cross
+  simp only [Bool.and_eq_true, decide_eq_true_eq]
+  rw [hx, hy]
+  refine ⟨⟨⟨⟨by ring, x1⟩, x2⟩, y1⟩, y2⟩
+
 theorem checkpointsInOrder_sound : ∀ (route cps : List P2),
     checkpointsInOrder route cps = true → Visits route cps := by
   intro route cps
